@@ -1669,4 +1669,14 @@ def self_intersections(nodes):
     left_right_intersections = left_right_intersections[:, keep_columns]
 
     result = np.hstack([left_self, left_right_intersections, right_self])
-    return np.asfortranarray(result)
+    # A self-intersection with one parameter exactly at a split point is
+    # found more than once: as a left-right intersection **and** inside the
+    # half that has the split point as an end point. Drop the repeats (with
+    # the same notion of "repeated" used when intersecting two curves).
+    unique_pairs = []
+    for s_val, t_val in result.T:
+        add_intersection(s_val, t_val, unique_pairs)
+    if len(unique_pairs) == result.shape[1]:
+        return np.asfortranarray(result)
+
+    return np.asfortranarray(np.array(unique_pairs, dtype=result.dtype).T)
